@@ -6,6 +6,7 @@ mode `hist`   : stdin JSON lines, each a history {"id", "ops":[...]} run against
                 behind qs.qserve.QPlugin (in-process proxy instead of the TCP RPC client; time.time of
                 qs.jobs patched to a counter).  After every op: the snapshots of all tracked job ids, the
                 status response for every (collection, writer), and the live job attributes.
+mode `writers`: the writer table the running code has.
 mode `unicode`: exhaustive pass over all 0x110000 code points: str.isspace table, the NFKD hypothesis of
                 the Coq theorem, and (argv[2] = step) get_content_disposition on every step-th code point.
 """
@@ -171,6 +172,10 @@ def run_hist():
                     now[0] += op[1]
                     applied = [["D", now[0]]]
                     wq.dropdead()
+                elif k == "restart":                    # the queue server is restarted without a data dir: every job is
+                    wq = jobs.workq()                   # gone, the nserve process (and whatever it remembers) lives on
+                    Handler.workq = wq
+                    applied = [["R"]]
                 else:
                     raise RuntimeError("unknown op %r" % (op,))
             except KeyError:
@@ -190,6 +195,10 @@ def run_hist():
             steps.append({"op": op, "applied": applied, "raised": raised, "snaps": snaps, "live": live, "status": status})
         real_stdout.write(json.dumps({"id": h["id"], "steps": steps}) + "\n")
     real_stdout.flush()
+
+
+# contexts a code point is placed in ("@" = the code point) for the per-code-point filename pass
+CD_CONTEXTS = ["a@b @", "@", "x@y", "@@ z", "p q@"]
 
 
 def run_unicode():
@@ -217,17 +226,33 @@ def run_unicode():
             allowed |= set(unicodedata.normalize("NFKD", ch))
         if not have <= allowed:
             bad_str.append(c)
-    cds = []
-    for c in range(0, 0x110000, step):
+    # every code point whose compatibility decomposition contains an ASCII character: these are the ones that
+    # reach the ASCII filename at all, among them (`special`) those that decompose to a non-alphanumeric ASCII
+    # character (the separator class of the header is a subset) -- computed from unicodedata, never listed by hand
+    special, ascii_cps = [], []
+    for c in range(0x110000):
         if c in control or 0xD800 <= c <= 0xDFFF:
             continue
-        name = "a" + chr(c) + "b " + chr(c)
+        d = unicodedata.normalize("NFKD", chr(c))
+        if any(ord(x) < 128 for x in d):
+            ascii_cps.append(c)
+            if any(not x.isalnum() for x in d if ord(x) < 128):
+                special.append(c)
+    cds = []
+    todo = [(c, CD_CONTEXTS[0]) for c in range(0, 0x110000, step)]
+    todo += [(c, ctx) for c in ascii_cps for ctx in CD_CONTEXTS]
+    seen = set()
+    for c, ctx in todo:
+        if c in control or 0xD800 <= c <= 0xDFFF or (c, ctx) in seen:
+            continue
+        seen.add((c, ctx))
+        name = ctx.replace("@", chr(c))
         try:
-            cds.append([c, nserve.get_content_disposition(name, "pdf")])
+            cds.append([c, ctx, nserve.get_content_disposition(name, "pdf")])
         except Exception as e:
-            cds.append([c, "EXC " + type(e).__name__])
+            cds.append([c, ctx, "EXC " + type(e).__name__])
     sys.stdout.write(json.dumps({"spaces": spaces, "bad_nfkd": bad_nfkd, "bad_str": bad_str, "ascii_from": ascii_from,
-                                 "unidata_version": unicodedata.unidata_version, "cds": cds,
+                                 "unidata_version": unicodedata.unidata_version, "cds": cds, "special": special,
                                  "runtime_writers": {k: [v.file_extension, v.content_type, v.name]
                                                      for k, v in nserve.name2writer.items()}}) + "\n")
 
@@ -238,5 +263,7 @@ elif mode == "hist":
     run_hist()
 elif mode == "unicode":
     run_unicode()
+elif mode == "writers":
+    sys.stdout.write(json.dumps({k: [v.file_extension, v.content_type, v.name] for k, v in nserve.name2writer.items()}) + "\n")
 else:
     sys.exit("unknown mode")
